@@ -222,6 +222,17 @@ int main(int argc, char** argv) {
   f7.group = "LS";
   f7.chunk = 256;
   f7.rule = "all ordered pairs (A, B) of " + std::to_string(LS_N) + " value spellings (integers, fractions, exponents written e / E with and without sign, extremes, literals, strings holding E, small containers) x 6 layouts (A and B as root members; in an object nested on both sides; A untouched next to the updated member; inside arrays; B new next to a kept A; three levels) x 4 bytes after the value (none, space, tab, newline)";
+  // LQ: key spellings whose END is delicate for a scanner that looks for the closing quote (escaped backslashes and
+  // escaped quotes at the end, alone, doubled, after 13..15 plain bytes), with another quote close behind the key
+  static const char* kLQ[] = {"a", "", "a\\\\", "\\\\", "\\\\\\\\", "a\\\\\\\"", "\\\"", "a\\\"", "\\\\\\\"", "D:\\\\", "C:\\\\tmp\\\\", "\\u005c", "a\\u005c", "\\/", "a\\b", "\\\\a",
+                              "0123456789abc\\\\", "0123456789abcd\\\\", "0123456789abcde\\\\", "0123456789abcdef\\\\", "0123456789abcd\\\"", "0123456789ab\\\\\\\\"};
+  static const unsigned LQ_N = sizeof(kLQ) / sizeof(kLQ[0]);
+  vr::Family f8;
+  f8.name = "LQ_key_endings";
+  f8.count = (uint64_t)LQ_N * LQ_N * 4;
+  f8.group = "LQ";
+  f8.chunk = 64;
+  f8.rule = "all ordered pairs (target key, source key) of " + std::to_string(LQ_N) + " key spellings (plain, empty, ending in an escaped backslash / escaped quote / both, \\u005c, Windows paths, 13..16 plain bytes before the final escape) x 4 layouts with string values right behind the key";
   f5.name = "LW_wide_mixed_keys";
   f5.count = (uint64_t)kpool.size() * 8 * 14;
   f5.group = "LW";
@@ -291,6 +302,38 @@ int main(int argc, char** argv) {
         ctx.violation("lazy_dup_keys", "lazy_dup_keys_counts", desc, "result has duplicate keys: %s", out.substr(0, 600).c_str());
       else if (!ref::equal(r.v, exp))
         ctx.violation("lazy_result", "lazy_result_counts", desc, "UpdateLazy returned %s, expected a value equal to %s", out.substr(0, 500).c_str(), ref::show(exp).substr(0, 500).c_str());
+      return;
+    }
+    if (f.name[1] == 'Q') {
+      unsigned lay = (unsigned)(idx % 4);
+      idx /= 4;
+      std::string K1 = std::string("\"") + kLQ[idx % LQ_N] + "\"", K2 = std::string("\"") + kLQ[idx / LQ_N] + "\"";
+      std::string t, s2;
+      switch (lay) {
+        case 0: t = "{" + K1 + ":1,\"x\":\"s\"}"; s2 = "{" + K2 + ":2}"; break;
+        case 1: t = "{" + K1 + ":{\"a\":1,\"b\":\"q\"},\"x\":1}"; s2 = "{" + K2 + ":{\"b\":2,\"c\":\"r\"}}"; break;
+        case 2: t = "{\"o\":{" + K1 + ":\"v\",\"y\":[1]}}"; s2 = "{\"o\":{" + K2 + ":\"w\"}}"; break;
+        default: t = "{\"x\":\"s\"," + K1 + ":1}"; s2 = "{\"n\":\"t\"," + K2 + ":{\"z\":\"u\"}}"; break;
+      }
+      ref::Result rt = ref::parse(t), rs = ref::parse(s2);
+      ctx.eval();
+      ctx.nontriv();
+      std::string desc = "target=" + t + "  source=" + s2;
+      if (ctx.want_sample) ctx.sample(desc.substr(0, 200));
+      if (!rt.ok || !rs.ok || ref::has_dup_keys(rt.v) || ref::has_dup_keys(rs.v)) {
+        ctx.violation("harness", "harness_generator", desc, "harness error: generated text invalid");
+        return;
+      }
+      ExactBuf tb(t), sb(s2);
+      std::string out = sonic_json::UpdateLazy(sonic_json::StringView(tb.p, tb.n), sonic_json::StringView(sb.p, sb.n));
+      ref::Result r = ref::parse(out);
+      ref::Value exp = mergeL(rt.v, rs.v);
+      if (!r.ok)
+        ctx.violation("lazy_invalid_output", "lazy_invalid_output_keyend", desc, "UpdateLazy returned %s which is not valid JSON", out.substr(0, 300).c_str());
+      else if (ref::has_dup_keys(r.v))
+        ctx.violation("lazy_dup_keys", "lazy_dup_keys_keyend", desc, "result has duplicate keys: %s", out.substr(0, 600).c_str());
+      else if (!ref::equal(r.v, exp))
+        ctx.violation("lazy_result", "lazy_result_keyend", desc, "UpdateLazy returned %s, expected a value equal to %s", out.substr(0, 400).c_str(), ref::show(exp).substr(0, 400).c_str());
       return;
     }
     if (f.name[1] == 'S') {
@@ -454,7 +497,7 @@ int main(int argc, char** argv) {
     if (ref::has_dup_keys(r.v)) ctx.violation("lazy_dup_keys", "lazy_dup_keys", desc, "result %s has duplicate keys", out.c_str());
   };
 
-  std::vector<vr::Family> fams = {f1, f2, f3, f4, f4b, f5, f6, f7};
+  std::vector<vr::Family> fams = {f1, f2, f3, f4, f4b, f5, f6, f7, f8};
   if (args.replay) return R.replay_one(fams, check);
   const std::string only = args.get("only");
   for (auto& f : fams)
